@@ -191,7 +191,7 @@ def check(world, tier):
     b.need(nw, 1, "rewrite of tsize on a read request")
     # ---------------------------------------------------------------- c(3): worker side uses the fields
     from . import C08, C02, C04, C07
-    for (mod, cid, keys) in ((C08, "C08.a", ("size-is-windowsize",)), (C02, "C02.e", ("recv-size-is-blksize",)), (C04, "C04.a", ("timeout-operand",)),
+    for (mod, cid, keys) in ((C08, "C08.a", ("size-is-windowsize",)), (C02, "C02.e", ("",)), (C04, "C04.a", ("timeout-operand",)),
                              (C07, "C07.a", ("read-timeout-before-worker", "read-timeout-not-stored", "channel-wait-unbounded"))):
         r = mod.check(world, tier)
         for cl in r.clauses:
@@ -234,6 +234,31 @@ def decoder_clause(world, a):
              "the decoder keeps an option whose name was not recognised", e.loc, sample={"pushed option": "recognised kind"})
     froms = [e for e in ed.events if e.inlined and base_name(e).endswith("as std::str::FromStr>::from_str") and "OptionType" in base_name(e)]
     a.need(len(set(e.node for e in froms)), 2, "option-name lookups in the decoder")
+    # unknown options are IGNORED: the value of an option is parsed as a number only after its name was recognised, so a
+    # non-numeric value of an unknown option cannot make the whole request undecodable
+    from .workers import Region
+    from .C13 import result_switch
+    Rd = Region(world, ed, "fn:tftpd::packet::Packet::deserialize")
+    parses = [e for e in ed.events if not e.inlined and base_name(e) == "core::str::<impl str>::parse"]
+    a.need(len(set(e.node for e in parses)), 2, "numeric parses of option values in the decoder")
+    for pe in parses:
+        lc = Rd.loops_containing(pe.node)
+        if not lc:
+            a.ob(False, "option-value-parse-outside-loop in %s" % short(pe.body), "an option value is parsed outside the option loop", pe.loc)
+            continue
+        lp = lc[0]
+        ln = Rd.loop_nodes(*lp)
+        ok_edges = set()
+        for fe in froms:
+            if fe.node in ln:
+                sw = result_switch(Rd, fe.node)
+                ok_edges |= set(sw.get(0, []))
+        outside = set(Rd.g.succ) - ln
+        dominated = bool(ok_edges) and pe.node not in Rd.g.reachable([lp], avoid_edges=ok_edges, avoid_nodes=outside)
+        a.ob(dominated, "unknown-option-value-parsed in %s" % short(pe.body),
+             "the value of an option is parsed as a number before (or without) its name having been recognised: an unknown option with a non-numeric "
+             "value makes the whole request undecodable instead of being ignored", pe.loc,
+             sample={"parse at": pe.loc, "dominated by": "OptionType::from_str(name) is Ok (same iteration)"})
     for e in froms:
         snap = arg_pointee(e, 0)
         ok = term_contains(e.args[0], is_app("std::str::<impl str>::to_lowercase")) or (snap is not None and term_contains(snap, is_app("std::str::<impl str>::to_lowercase")))
